@@ -8,18 +8,27 @@ namespace vf {
 inline char variant_which(const Ctx &c) { return c.prop("C17") ? 'N' : 'B'; }
 
 // ---------------------------------------------------------------------------------------------- Compressed (C08)
-template<class K, size_t Eps, size_t EpsRec, class Floating, bool Huge = false>
+template<class K, size_t Eps, size_t EpsRec, class Floating, int Mode = 0>
 void comp_case(Ctx &c) {
     using Idx = pgm::CompressedPGMIndex<K, Eps, EpsRec, Floating>;
-    bool chunked = c.case_idx % 64 == 63 && sizeof(K) >= 4;
-    auto sc = Huge && !c.given ? gen_huge_case<K>(c.rng, Eps) : make_static_case<K>(c, Eps, chunked, 5000, c.thorough() ? (size_t(1) << 17) : (size_t(1) << 16), EpsRec);
+    constexpr bool Huge = Mode == 1;
+    bool chunked = Mode == 0 && c.case_idx % 64 == 63 && sizeof(K) >= 4;
+    if (Mode == 2 && !c.given) {
+        StaticCase<K> probe;
+        if (!gen_enum_case<K>(c, probe)) { c.count("enum_cases_past_the_end"); return; }
+        c.count("enum_cases");
+        c.maxc("enum_space_per_configuration", kSmallScope.total());
+    }
+    auto sc = Huge && !c.given ? gen_huge_case<K>(c.rng, Eps) : Mode == 2 && !c.given ? [&] { StaticCase<K> e; gen_enum_case<K>(c, e); return e; }() : make_static_case<K>(c, Eps, chunked, 5000, c.thorough() ? (size_t(1) << 17) : (size_t(1) << 16), EpsRec);
     NoExtra ex;
     run_static<K, Idx, Eps>(c, sc, variant_which(c), ex);
 }
 #define VF_COMP(K, E, ER, F)                                                                                           \
     VF_REGISTER(std::string("comp/") + ::vf::KT<K>::name() + ",e" #E ",er" #ER "," #F, (&::vf::comp_case<K, E, ER, F>), 1.0)
+#define VF_COMP_ENUM(K, E, ER, F)                                                                                      \
+    VF_REGISTER(std::string("comp/") + ::vf::KT<K>::name() + ",e" #E ",er" #ER "," #F "#enum", (&::vf::comp_case<K, E, ER, F, 2>), 8.6)
 #define VF_COMP_HUGE(K, E, ER, F)                                                                                      \
-    VF_REGISTER(std::string("comp/") + ::vf::KT<K>::name() + ",e" #E ",er" #ER "," #F "#huge", (&::vf::comp_case<K, E, ER, F, true>), 0.0003)
+    VF_REGISTER(std::string("comp/") + ::vf::KT<K>::name() + ",e" #E ",er" #ER "," #F "#huge", (&::vf::comp_case<K, E, ER, F, 1>), 0.0003)
 
 // ---------------------------------------------------------------------------------------------- Bucketing (C09)
 template<size_t Eps, uint8_t BitSize> struct BucketExtra : NoExtra {
@@ -45,12 +54,19 @@ template<size_t Eps, uint8_t BitSize> struct BucketExtra : NoExtra {
     }
 };
 
-template<class K, size_t Eps, size_t Top, uint8_t BitSize, class Floating, bool Huge = false>
+template<class K, size_t Eps, size_t Top, uint8_t BitSize, class Floating, int Mode = 0>
 void bucket_case(Ctx &c) {
     using Idx = pgm::BucketingPGMIndex<K, Eps, Top, BitSize, Floating>;
-    bool chunked = c.case_idx % 64 == 63 && sizeof(K) >= 4;
-    auto sc = Huge && !c.given ? gen_huge_case<K>(c.rng, Eps) : make_static_case<K>(c, Eps, chunked, 5000, c.thorough() ? (size_t(1) << 17) : (size_t(1) << 16));
-    if (!Huge && !c.given && !chunked && c.rng.chance(1, 6)) {
+    constexpr bool Huge = Mode == 1;
+    bool chunked = Mode == 0 && c.case_idx % 64 == 63 && sizeof(K) >= 4;
+    if (Mode == 2 && !c.given) {
+        StaticCase<K> probe;
+        if (!gen_enum_case<K>(c, probe)) { c.count("enum_cases_past_the_end"); return; }
+        c.count("enum_cases");
+        c.maxc("enum_space_per_configuration", kSmallScope.total());
+    }
+    auto sc = Huge && !c.given ? gen_huge_case<K>(c.rng, Eps) : Mode == 2 && !c.given ? [&] { StaticCase<K> e; gen_enum_case<K>(c, e); return e; }() : make_static_case<K>(c, Eps, chunked, 5000, c.thorough() ? (size_t(1) << 17) : (size_t(1) << 16));
+    if (Mode == 0 && !c.given && !chunked && c.rng.chance(1, 6)) {
         // keys exactly on first + i*step for the bucket step this configuration will use, and spans of the whole type
         using D = UDom<K>;
         std::vector<uint64_t> u;
@@ -76,9 +92,12 @@ void bucket_case(Ctx &c) {
     run_static<K, Idx, Eps>(c, sc, variant_which(c), ex);
     c.count("outside_range_queries", ex.outside);
 }
+#define VF_BUCKET_ENUM(K, E, TOP, BITS, F)                                                                             \
+    VF_REGISTER(std::string("bucket/") + ::vf::KT<K>::name() + ",e" #E ",top" #TOP ",bits" #BITS "," #F "#enum",      \
+                (&::vf::bucket_case<K, E, TOP, BITS, F, 2>), 8.6)
 #define VF_BUCKET_HUGE(K, E, TOP, BITS, F)                                                                             \
     VF_REGISTER(std::string("bucket/") + ::vf::KT<K>::name() + ",e" #E ",top" #TOP ",bits" #BITS "," #F "#huge",      \
-                (&::vf::bucket_case<K, E, TOP, BITS, F, true>), 0.0003)
+                (&::vf::bucket_case<K, E, TOP, BITS, F, 1>), 0.0003)
 #define VF_BUCKET(K, E, TOP, BITS, F)                                                                                  \
     VF_REGISTER(std::string("bucket/") + ::vf::KT<K>::name() + ",e" #E ",top" #TOP ",bits" #BITS "," #F,              \
                 (&::vf::bucket_case<K, E, TOP, BITS, F>), 1.0)
@@ -100,12 +119,19 @@ struct EfExtra : NoExtra {
     }
 };
 
-template<class K, size_t Eps, class Floating, bool Huge = false>
+template<class K, size_t Eps, class Floating, int Mode = 0>
 void ef_case(Ctx &c) {
     using Idx = EfProbe<K, Eps, Floating>;
-    bool chunked = c.case_idx % 64 == 63 && sizeof(K) >= 4;
-    auto sc = Huge && !c.given ? gen_huge_case<K>(c.rng, Eps) : make_static_case<K>(c, Eps, chunked, 5000, c.thorough() ? (size_t(1) << 17) : (size_t(1) << 16));
-    if (!Huge && !c.given && !chunked && c.rng.chance(1, 5)) {
+    constexpr bool Huge = Mode == 1;
+    bool chunked = Mode == 0 && c.case_idx % 64 == 63 && sizeof(K) >= 4;
+    if (Mode == 2 && !c.given) {
+        StaticCase<K> probe;
+        if (!gen_enum_case<K>(c, probe)) { c.count("enum_cases_past_the_end"); return; }
+        c.count("enum_cases");
+        c.maxc("enum_space_per_configuration", kSmallScope.total());
+    }
+    auto sc = Huge && !c.given ? gen_huge_case<K>(c.rng, Eps) : Mode == 2 && !c.given ? [&] { StaticCase<K> e; gen_enum_case<K>(c, e); return e; }() : make_static_case<K>(c, Eps, chunked, 5000, c.thorough() ? (size_t(1) << 17) : (size_t(1) << 16));
+    if (Mode == 0 && !c.given && !chunked && c.rng.chance(1, 5)) {
         // segment-key sets of a chosen density: `m` far-apart clusters of 2eps+2 consecutive keys -> m segments whose
         // keys span 2^b, so the Elias-Fano low-bit width takes every value
         using D = UDom<K>;
@@ -125,7 +151,7 @@ void ef_case(Ctx &c) {
         for (auto x : u) sc.keys.push_back(D::to_key(x));
         sc.family = "ef_density";
     }
-    if (!Huge && !c.given && !chunked && c.rng.chance(1, 8)) {
+    if (Mode == 0 && !c.given && !chunked && c.rng.chance(1, 8)) {
         // the last segment starts exactly at first + 2^j - 2 (or -1) and is followed by consecutive keys: queries at and
         // right after the last segment key hit the bucket boundary of the Elias-Fano high part
         using D = UDom<K>;
@@ -154,8 +180,10 @@ void ef_case(Ctx &c) {
     EfExtra ex;
     run_static<K, Idx, Eps>(c, sc, variant_which(c), ex);
 }
+#define VF_EF_ENUM(K, E, F)                                                                                            \
+    VF_REGISTER(std::string("ef/") + ::vf::KT<K>::name() + ",e" #E "," #F "#enum", (&::vf::ef_case<K, E, F, 2>), 8.6)
 #define VF_EF_HUGE(K, E, F)                                                                                            \
-    VF_REGISTER(std::string("ef/") + ::vf::KT<K>::name() + ",e" #E "," #F "#huge", (&::vf::ef_case<K, E, F, true>), 0.0003)
+    VF_REGISTER(std::string("ef/") + ::vf::KT<K>::name() + ",e" #E "," #F "#huge", (&::vf::ef_case<K, E, F, 1>), 0.0003)
 #define VF_EF(K, E, F)                                                                                                 \
     VF_REGISTER(std::string("ef/") + ::vf::KT<K>::name() + ",e" #E "," #F, (&::vf::ef_case<K, E, F>), 1.0)
 
